@@ -60,6 +60,11 @@ def generate(rng, tier):
             x = math.floor(x) + 0.5
         cases.append({"k": "x0", "x": float(x).hex()})
     cases.append({"k": "none"})
+    # one-tick and two-tick segments on the grid combined with ordinary ones: the operations agree with bool() on what
+    # is empty (a one-tick segment is empty iff its float duration does not exceed the precision)
+    for n_ in range(0, 7):
+        for k_ in list(range(-8, 9)) + [rng.randrange(-5000, 5000) for _ in range(10 if tier == "thorough" else 3)]:
+            cases.append({"k": "tick", "n": n_, "x": float(k_).hex()})
     kinds = {}
     for c in cases:
         kinds[c["k"]] = kinds.get(c["k"], 0) + 1
@@ -109,6 +114,24 @@ def run(case):
             r = Segment(x, x + 3).start
             assert float(r).is_integer()
             return {"r": int(r)}
+        if k == "tick":
+            n = case["n"]
+            kk = int(float.fromhex(case["x"]))
+            Segment.set_precision(n)
+            P = 10 ** (-n)
+            ok = True
+            for width in (1, 2):
+                a = Segment(kk * P, (kk + width) * P)
+                for b in (Segment((kk + 5) * P, (kk + 9) * P), Segment((kk - 9) * P, (kk - 4) * P), Segment((kk - 3) * P, (kk + 6) * P)):
+                    hull = Segment(min(a.start, b.start), max(a.end, b.end))
+                    if not a:
+                        ok = ok and (a | b) == b and (b | a) == b and not (a & b) and a.duration == 0
+                        ok = ok and Timeline([a, b]).extent() == b and len(Timeline([a, b])) == 1
+                    else:
+                        ok = ok and (a | b) == hull and (b | a) == hull and a.duration > 0 and len(Timeline([a, b])) == 2
+                        ok = ok and Timeline([a, b]).extent() == hull
+                    ok = ok and (a | b) == Segment((a | b).start, (a | b).end)
+            return {"ok": bool(ok)}
         if k == "none":
             Segment.set_precision(3)
             Segment.set_precision(None)
